@@ -144,7 +144,7 @@ func cmdCheck(args []string) {
 		fmt.Fprintln(os.Stderr, "error:", err)
 		os.Exit(2)
 	}
-	s.TimeoutS = 10
+	s.TimeoutS = 20
 	if tier == "thorough" {
 		s.TimeoutS = 60
 	}
